@@ -6,6 +6,7 @@ two forms equivalent for every execution; the rules then have one loop shape to 
 N1  counting while-loop           i = a; ...; while i < b: PRE; i += 1; POST      ->  for i in range(a, b): PRE; POST
 N2  index loop over a sequence    for i in range(len(X)): v = X[i]; BODY          ->  for v in X: BODY          (i unused in BODY)
                                                                                       for i, v in enumerate(X): BODY   (otherwise)
+N3  clamp written as a statement  if a < m: m = a      (any of < <= > >=, `not`)  ->  m = a if a < m else m    (read as min/max later)
 """
 from __future__ import annotations
 
@@ -132,7 +133,13 @@ class _Normaliser:
                     self.changed += 1
                     i = max(0, i - 1)     # the initialisation was removed: the new for-loop sits one position earlier
                     continue              # re-examine it for N2
+            if isinstance(s, ast.If):
+                r3 = self._n3(s)
+                if r3 is not None:
+                    out[i] = r3
+                    self.changed += 1
             if isinstance(s, ast.For):
+                self._resolve_len_bound(out, i)
                 r2 = self._n2(s)
                 if r2 is not None:
                     out[i] = r2
@@ -224,6 +231,58 @@ class _Normaliser:
                     return True
         return False
 
+    # ------------------------------------------------------------------ N3
+    @staticmethod
+    def _n3(s: ast.If) -> Optional[ast.stmt]:
+        if s.orelse or len(s.body) != 1:
+            return None
+        b = s.body[0]
+        if not (isinstance(b, ast.Assign) and len(b.targets) == 1 and isinstance(b.targets[0], ast.Name)):
+            return None
+        test = s.test
+        neg = False
+        while isinstance(test, ast.UnaryOp) and isinstance(test.op, ast.Not):
+            test = test.operand
+            neg = not neg
+        if not (isinstance(test, ast.Compare) and len(test.ops) == 1 and isinstance(test.ops[0], (ast.Lt, ast.LtE, ast.Gt, ast.GtE))):
+            return None
+        l, r = test.left, test.comparators[0]
+        tname = b.targets[0].id
+        v = b.value
+        for e in (l, r, v):
+            if any(isinstance(y, (ast.Call, ast.NamedExpr, ast.Await, ast.Yield)) and not (
+                    isinstance(y, ast.Call) and isinstance(y.func, ast.Name) and y.func.id in ('len', 'abs', 'int', 'float', 'min', 'max'))
+                   for y in ast.walk(e)):
+                return None
+        dl, dr, dv = ast.dump(l), ast.dump(r), ast.dump(v)
+        dt = ast.dump(ast.Name(id=tname, ctx=ast.Load()))
+        if {dl, dr} != {dt, dv} or dt == dv:
+            return None
+        keep = ast.Name(id=tname, ctx=ast.Load())
+        new = ast.Assign(targets=[b.targets[0]], value=ast.IfExp(test=s.test, body=v, orelse=keep))
+        ast.copy_location(new, s)
+        ast.fix_missing_locations(new)
+        return new
+
+    def _resolve_len_bound(self, block: List[ast.stmt], fi: int):
+        """`n = len(X); ...; for i in range(n)`: the bound written out as len(X) when nothing in between touches n or X."""
+        f = block[fi]
+        if not (isinstance(f.iter, ast.Call) and isinstance(f.iter.func, ast.Name) and f.iter.func.id == 'range' and not f.iter.keywords
+                and f.iter.args and isinstance(f.iter.args[-1], ast.Name) and len(f.iter.args) <= 2):
+            return
+        b = f.iter.args[-1].id
+        for j in range(fi - 1, -1, -1):
+            st_ = block[j]
+            if isinstance(st_, ast.Assign) and len(st_.targets) == 1 and isinstance(st_.targets[0], ast.Name) and st_.targets[0].id == b:
+                v = st_.value
+                if isinstance(v, ast.Call) and isinstance(v.func, ast.Name) and v.func.id == 'len' and len(v.args) == 1 and not v.keywords:
+                    path = _access_path(v.args[0])
+                    if path and _seq_untouched(block[j + 1:fi] + f.body, path, local_only='.' not in path) and not _names_stored(f.body, b):
+                        f.iter.args[-1] = copy.deepcopy(v)
+                return
+            if _names_stored([st_], b) or isinstance(st_, (ast.For, ast.While, ast.If, ast.Try, ast.With)):
+                return
+
     # ------------------------------------------------------------------ N2
     def _n2(self, f: ast.For) -> Optional[ast.For]:
         if f.orelse and False:
@@ -261,7 +320,7 @@ class _Normaliser:
                 pos = k
                 break
         if pos is None:
-            return None
+            return self._n2_inline(f, hi, path, idx, is_elem)
         first = f.body[pos]
         var = first.targets[0].id
         before = f.body[:pos]
@@ -279,6 +338,35 @@ class _Normaliser:
             target = ast.Tuple(elts=[ast.Name(id=idx, ctx=ast.Store()), ast.Name(id=var, ctx=ast.Store())], ctx=ast.Store())
             it = ast.Call(func=ast.Name(id='enumerate', ctx=ast.Load()), args=[seq], keywords=[])
         loop = ast.For(target=target, iter=it, body=rest or [ast.Pass()], orelse=f.orelse, type_comment=None)
+        ast.copy_location(loop, f)
+        ast.fix_missing_locations(loop)
+        return loop
+
+    def _n2_inline(self, f: ast.For, hi, path: str, idx: str, is_elem) -> Optional[ast.For]:
+        """No `v = X[i]` statement: every X[i] in the body becomes a fresh element variable bound by the loop."""
+        reads = [y for st_ in f.body for y in ast.walk(st_) if is_elem(y)]
+        if not reads:
+            return None
+        var = f"{idx}__elem"
+        if _names_loaded(f.body, var) or _names_stored(f.body, var):
+            return None
+        read_ids = {id(r) for r in reads}
+
+        class R(ast.NodeTransformer):
+            def visit_Subscript(self, n):
+                if id(n) in read_ids:
+                    return ast.copy_location(ast.Name(id=var, ctx=ast.Load()), n)
+                return self.generic_visit(n)
+        body = [R().visit(st_) for st_ in f.body]
+        used = _names_loaded(body, idx)
+        seq = copy.deepcopy(hi.args[0])
+        if used == 0 and not self._idx_used_after(f, idx):
+            target = ast.Name(id=var, ctx=ast.Store())
+            it = seq
+        else:
+            target = ast.Tuple(elts=[ast.Name(id=idx, ctx=ast.Store()), ast.Name(id=var, ctx=ast.Store())], ctx=ast.Store())
+            it = ast.Call(func=ast.Name(id='enumerate', ctx=ast.Load()), args=[seq], keywords=[])
+        loop = ast.For(target=target, iter=it, body=body, orelse=f.orelse, type_comment=None)
         ast.copy_location(loop, f)
         ast.fix_missing_locations(loop)
         return loop
